@@ -25,7 +25,7 @@ ASSUMPTIONS = [
     'an indefinite regimen with final_time=None lists only its first dose (documented)']
 REQUIRED = ['sim', 'table', 'data', 'direct', 'indirect', 'single', 'finite', 'indefinite', 'protocol',
             'ft:before', 'ft:at_dose', 'ft:between', 'ft:none', 'start>0', 'bolus', 'infusion', 'lib_pk',
-            'rerouted', 'rerouted:same_component', 'route:global_state', 'data:undosed_after_dosed', 'index:not_unique']
+            'rerouted', 'rerouted:same_component', 'route:global_state', 'data:undosed_after_dosed', 'index:not_unique', 'sim:outputs_after_regimen']
 
 
 @st.composite
@@ -130,7 +130,7 @@ def _spec(draw):
     n_t = draw(st.integers(1, 6))
     fr = sorted(draw(gen.vec(st.floats(0.0, 1.0).map(lambda v: round(v, 4)), n_t)))
     return dict(mode=mode, lib=lib, ms=ms, admin=admin, reg=reg, protocol=protocol, ft=ft, ftc=ftc,
-                theta=theta, fr=fr)
+                theta=theta, fr=fr, outputs_late=draw(st.booleans()))
 
 
 def strategy(tier):
@@ -139,6 +139,8 @@ def strategy(tier):
 
 def classify(spec):
     labs = [spec['mode']]
+    if spec['mode'] == 'sim' and spec.get('outputs_late'):
+        labs.append('sim:outputs_after_regimen')
     if spec['mode'] == 'data':
         labs.append('ids:' + spec['id_style'])
         labs.append('dur:' + spec['with_dur'])
@@ -213,6 +215,52 @@ def _build_model(spec):
         c1, v1 = _target(ms, spec['admin']['comp'])
         M.set_administration(c1, amount_var=v1, direct=spec['admin']['direct'])
     return M, ms
+
+
+def _user_model(inner):
+    """A user-defined mechanistic model that supports dosing (here it delegates to a PKPD model; a user would solve their
+    own equations): not a chi.PKPDModel instance, but with the documented interface."""
+    import chi
+
+    class UserDosedModel(chi.MechanisticModel):
+        def __init__(self, m):
+            super(UserDosedModel, self).__init__()
+            self._m = m
+
+        def copy(self):
+            return UserDosedModel(self._m.copy())
+
+        def enable_sensitivities(self, enabled, parameter_names=None):
+            self._m.enable_sensitivities(enabled, parameter_names)
+
+        def has_sensitivities(self):
+            return self._m.has_sensitivities()
+
+        def n_outputs(self):
+            return self._m.n_outputs()
+
+        def n_parameters(self):
+            return self._m.n_parameters()
+
+        def outputs(self):
+            return self._m.outputs()
+
+        def parameters(self):
+            return self._m.parameters()
+
+        def simulate(self, parameters, times):
+            return self._m.simulate(parameters, times)
+
+        def supports_dosing(self):
+            return True
+
+        def set_dosing_regimen(self, dose, start=0, duration=0.01, period=None, num=None):
+            self._m.set_dosing_regimen(dose, start, duration, period, num)
+
+        def dosing_regimen(self):
+            return self._m.dosing_regimen()
+
+    return UserDosedModel(inner)
 
 
 def _target(ms, idx):
@@ -424,8 +472,13 @@ def check(case):
         times = np.array(sorted({round(f * t_end, 9) for f in s['fr']} | {t_end}), dtype=float)
         outs = sbmlgen.state_qnames(ms) + ([] if admin['direct'] else ['dose.drug_amount'])
         with case.clause('simulate'):
-            M.set_outputs(outs)
-            _set_regimen(M, s)
+            if s.get('outputs_late'):
+                # (the outputs are selected AFTER the regimen was scheduled)
+                _set_regimen(M, s)
+                M.set_outputs(outs)
+            else:
+                M.set_outputs(outs)
+                _set_regimen(M, s)
             got = np.asarray(M.simulate(theta.copy(), times.copy()), dtype=float)
             ev = _events(s, t_end + 1.0)
             want = np.real(sbmlgen.ref_simulate(ms, theta, times, outs, admin, ev))
@@ -517,6 +570,28 @@ def check(case):
                                    i, n, [g[0] for g in got_i], [w[0] for w in sorted(want)]))
                     case.close(np.array(got_i), np.array(sorted(want)), rtol=1e-9,
                                what='dose rows of sample ID %d of a population predictive model with covariates' % i)
+        # a user-defined dosing-capable model (not a PKPDModel instance) with one parameter fixed: the regimen set through
+        # the predictive model is reported in the same table and in the sampled table
+        if s['protocol'] is None:
+            with case.clause('user_model_regimen'):
+                um = _user_model(M.copy())
+                pmu = chi.PredictiveModel(um, [chi.GaussianErrorModel() for _ in range(n_out)])
+                first = pmu.get_parameter_names()[0]
+                pmu.fix_parameters({first: float(theta[0])})
+                r = s['reg']
+                pmu.set_dosing_regimen(dose=r['dose'], start=r['start'], duration=r['duration'], period=r['period'],
+                                       num=r['num'])
+                dfu = pmu.get_dosing_regimen(final_time=ft)
+                case.true(dfu is not None, 'the regimen set on a predictive model over a user-defined dosed model with a '
+                          'fixed parameter is not reported (None)')
+                got_u = sorted((float(a), float(b), float(c)) for a, b, c in dfu[['Time', 'Duration', 'Dose']].values)
+                case.close(np.array(got_u), np.array(sorted(want)), rtol=1e-9,
+                           what='regimen table of a predictive model over a user-defined dosed model with a fixed parameter')
+                smp = pmu.sample(params[1:].copy(), tms.copy(), n_samples=2, seed=5, include_regimen=True)
+                case.true('Dose' in smp.columns and int(smp['Dose'].notnull().sum()) == 2 * len(want),
+                          'dose rows in the table sampled from the user-defined dosed model: expected %d per sample id'
+                          % len(want), kind='dose_rows')
+
         # an averaged model over two different posterior predictive models: the regimen set through it reaches both
         if s['protocol'] is None:
             with case.clause('averaged_regimen'):
